@@ -246,14 +246,28 @@ def run_cases(prop: Any, rec: Recorder, rng: Any, n: int, deadline: float) -> No
         run_one(prop, rec, case)
 
 
-class CaseTimeout(Exception):
+class CaseTimeout(BaseException):
     """Wall-clock watchdog of one case fired (inconclusive, never a verdict)."""
 
 
-CASE_WATCHDOG_S = 120
+CASE_WATCHDOG_S = 45
+_ABORT: dict[str, Any] = {"rec": None, "out": None, "fired": 0}
 
 
 def _alarm(signum: int, frame: Any) -> None:
+    """First firing: raise inside whatever is running (a BaseException, so ordinary handlers of the code
+    under observation do not swallow it). If the case still does not end (a non-yielding spin that catches
+    even that), the second firing dumps what was observed so far and ends the shard: inconclusive."""
+    import signal
+
+    _ABORT["fired"] += 1
+    rec = _ABORT["rec"]
+    if _ABORT["fired"] >= 2 and rec is not None:
+        rec.harness_problem(f"case did not end {2 * CASE_WATCHDOG_S} s after start (non-yielding spin?); shard aborted")
+        if _ABORT["out"]:
+            Path(_ABORT["out"]).write_text(json.dumps(rec.dump()))
+        os._exit(0)
+    signal.alarm(CASE_WATCHDOG_S)
     raise CaseTimeout(f"{CASE_WATCHDOG_S} s")
 
 
@@ -263,6 +277,7 @@ def run_one(prop: Any, rec: Recorder, case: Any) -> None:
     from .vloop import Livelock
 
     rec.begin(case)
+    _ABORT["rec"], _ABORT["fired"] = rec, 0
     signal.signal(signal.SIGALRM, _alarm)
     signal.alarm(CASE_WATCHDOG_S)
     try:
